@@ -38,8 +38,9 @@ CONVENTIONS (DSSP program; the paper's "priority H,B,E,G,I,T,S" alone does not f
   A-share     (AMBIGUOUS, parameter `share`) two ladders that would be bulge-linked but whose second strands
               share their end residue (the same residue ends one ladder and starts the other, "-1 extra
               residues"): the paper does not say whether that is a link; DSSP-2.2's unsigned arithmetic
-              links them.  Results carry the flag "A-share" whenever this decides anything, so a check can
-              accept both readings.
+              links them.  Results carry the flag "A-share" whenever this decides anything and the set
+              `share_keys` of such junctions; `share` may be True, False or the set of junctions that link,
+              so a check can accept every reading.
   C-chain     a chain break is a change of the chain id only (mdtraj has no distance-based breaks).
   C-missing   residues without a complete backbone (N, CA, C, O) have no H-bonds, are nobody's bridge
               partner and nobody's bend vertex.  mode "lenient": a turn / bridge stretch / bend window may
@@ -82,7 +83,7 @@ def kappa_deg(ca, i):
 
 class Base:
     """Everything that follows from the H-bond pattern alone (no CA geometry)."""
-    __slots__ = ("n", "codes", "flags", "seg", "missing", "turns", "ladders", "ladders_unlinked")
+    __slots__ = ("n", "codes", "flags", "seg", "missing", "turns", "ladders", "ladders_unlinked", "share_keys")
 
 
 def base(n, bonds, chain, missing=(), mode=LENIENT, share=True):
@@ -148,6 +149,7 @@ def base(n, bonds, chain, missing=(), mode=LENIENT, share=True):
         ladders.append(["A", i, i + k, j - k, j, k + 1])
     ladders.sort()
     ladders_unlinked = ladders
+    share_keys = set()
 
     # ---- bulge links ---------------------------------------------------------------------------
     if len(ladders) > 1:
@@ -164,8 +166,11 @@ def base(n, bonds, chain, missing=(), mode=LENIENT, share=True):
             if seg[X[1]] != seg[Y[2]] or seg[jlo] != seg[jhi]:
                 return False
             if gj == -1:
+                # junction: (type, last first-strand residue of X, first first-strand residue of Y, shared residue)
+                key = (X[0], X[2], Y[1], X[4] if X[0] == "P" else X[3])
                 flags.add("A-share")
-                return share
+                share_keys.add(key)
+                return share is True or (share is not False and key in share)
             return True
 
         def close(lads, order):
@@ -256,6 +261,7 @@ def base(n, bonds, chain, missing=(), mode=LENIENT, share=True):
     b = Base()
     b.n, b.codes, b.flags, b.seg, b.missing, b.turns, b.ladders = n, codes, flags, seg, miss, turn, ladders
     b.ladders_unlinked = ladders_unlinked
+    b.share_keys = share_keys
     return b
 
 
